@@ -290,7 +290,7 @@ def run(tier, t0, only_pairs=None):
                 tasks.append((an, bn, warm, 'line', k, solo_vals, (m, i) if m > 1 else None))
         A, B = sorted({t[0] for t in tasks}), sorted({t[1] for t in tasks})
     else:
-        A, B = names, names
+        A, B = names, GEO_B + INT_B + ['cell_to_lonlat_r29_centre', 'children_parent', 'lonlat_to_cell_r2']
         for an in A:
             for bn in B:
                 for warm in (False, True):
@@ -327,13 +327,14 @@ def run(tier, t0, only_pairs=None):
     acc.sample({'shared_cache_slots [all, reflected] per geometric pair': k.get('shared_slots')})
     acc.sample({'some_sites': sorted(allsites)[:5]})
     rule = (f'{len(tasks)} explorations over {len(A)} calls A and {len(B)} calls B (cold and warm library): every line event of A inside the a5 package is a preemption point at which B runs to completion '
-            '(thorough: full 18x18 product and every bytecode instruction for the short calls); after every schedule a fixed set of probe calls is made single-threaded; a state is (pair, temperature, point); non-trivial counts distinct (file, function, line) sites per pair')
+            '(thorough: every menu call as A x 12 calls B, cold and warm, every occurrence, plus every bytecode instruction for the short calls); after every schedule a fixed set of probe calls is made single-threaded; a state is (pair, temperature, point); non-trivial counts distinct (file, function, line) sites per pair')
     return common.finish(PID, LEVEL, tier, acc, t0, rule, [
         'context bound 2 (one preemption of A by a complete B, both role assignments); two or more preemptions and free-threaded memory effects are not explored',
         'quick tier: of the dynamic occurrences of one line site (same file, function, line) inside A only the first 6 and the last 2 are preemption points (counters.points_skipped_by_occurrence_cap); the thorough tier explores every occurrence',
         'values compared bit-for-bit (floats by hex) with the same call run alone in a process forked from a pristine import',
         'a child that does not finish within 10 s counts as blocked (a schedule a lock would forbid), never as a violation',
-    ], extra={'explorations': len(tasks), 'granularity': 'line' + (' + instruction (short calls)' if tier == 'thorough' else '')}, exhaustive=True)
+    ], extra={'explorations': len(tasks), 'granularity': 'line' + (' + instruction (short calls)' if tier == 'thorough' else ''),
+              'occurrence_cap_first_last': list(CAP) if CAP else None}, exhaustive=(tier == 'thorough'))
 
 
 def replay(case):
